@@ -343,8 +343,9 @@ def body_problem(v, depth=0):
         return f'body-fld-octets is not a number: {v[6]!r}'
     k = 7
     mt, st = v[0].val.upper(), v[1].val.upper()
-    if mt == b'MESSAGE' and st == b'RFC822' and len(v) > 7 and isinstance(v[7], list):
-        if len(v) < 10:
+    if mt == b'MESSAGE' and st == b'RFC822':
+        # body-type-msg: the media type decides, not what happens to follow (as Structure.isBody has it)
+        if len(v) < 10 or not isinstance(v[7], list):
             return f'message/rfc822 body lacks envelope, body and line count: {v[7:]!r}'
         p = envelope_problem(v[7]) or body_problem(v[8], depth + 1)
         if p:
